@@ -234,6 +234,18 @@ def rule_tws(tr, exact_unicode_ws=True):
 
 
 def rule_wws(tr):
+    first = _rule_wws(tr, tr.r.token_bodies())
+    if not any(o.status == 'violated' for o in first):
+        return first
+    second = _rule_wws(tr, tr.r.token_bodies(views=True))
+    if not any(o.status == 'violated' for o in second):
+        for o in second:
+            o.what += ' [read with combinator closures inlined]'
+        return second
+    return first
+
+
+def _rule_wws(tr, tbodies):
     """layout cannot change classification: skipping precedes the dispatch; function-vs-reference
     looks at the next *token*"""
     prog, roles = tr.prog, tr.r
@@ -246,8 +258,7 @@ def rule_wws(tr):
     # every other advance in TOKEN-NEXT's body must come after the skipper
     # function vs reference
     n = 0
-    for bid in sorted(roles.reach):
-        b = prog.by_id[bid]
+    for b in tbodies:
         fsites = [(bb, rv) for bb, i, pl, rv in b.assigns() if rv['k'] == 'agg' and rv.get('adt') == roles.token_adt and rv.get('variant') == 'Function']
         for bb, rv in fsites:
             n += 1
@@ -377,6 +388,18 @@ def _advance_between(sm, body, b1, b2):
 
 
 def rule_tspan(sm, roles):
+    first = _rule_tspan(sm, roles, roles.token_bodies())
+    if not any(o.status == 'violated' for o in first):
+        return first
+    second = _rule_tspan(sm, roles, roles.token_bodies(views=True))
+    if not any(o.status == 'violated' for o in second):
+        for o in second:
+            o.what += ' [read with combinator closures inlined]'
+        return second
+    return first
+
+
+def _rule_tspan(sm, roles, bodies):
     prog = sm.prog
     obs = []
     tadt = prog.f.adt_by_name.get(roles.token_adt)
@@ -384,8 +407,7 @@ def rule_tspan(sm, roles):
         return [bad('TSPAN', 'TSPAN|anchor', 'anchor lost: token type')]
     # the span type = type of the second field of the text-carrying variants
     n = 0
-    for bid in sorted(roles.reach):
-        b = prog.by_id[bid]
+    for b in bodies:
         for bb, i, pl, rv in b.assigns():
             if not (rv['k'] == 'agg' and rv.get('adt') == roles.token_adt and len(rv['ops']) == 2):
                 continue
@@ -475,8 +497,9 @@ def _param_text_ok(sm, roles, b, pidx, s0, s1, agg_bb):
         if c.term['arg_tys'] and c.term['arg_tys'][0].startswith('&mut ') and sm.adt['name'] in c.term['arg_tys'][0] and agg_bb in b.reachable_after(c.bb):
             return 'the scanner advances between receiving the text and reading the span end'
     sites = []
-    for caller_id in prog.callers.get(b.id, ()):
-        sites += prog.edge_sites.get((caller_id, b.id), [])
+    oid = getattr(b, 'orig_id', b.id)
+    for caller_id in prog.callers.get(oid, ()):
+        sites += prog.edge_sites.get((caller_id, oid), [])
     if not sites:
         return 'no call sites'
     for c in sites:
